@@ -1673,7 +1673,9 @@ class TreeCase:
                     vdisagree(P, "real parser on model-printed text evaluates differently from the tree", {"text": text, **self.case_obj}, w, g, g, (t, env), (py_tree(text), env))
                     break
             st_real, st_model = real_parse_structure(text), model_structure(ppo.get("norm"))
-            if st_real != st_model:
+            if str(st_real).startswith("raised:") or str(st_model).startswith("raised:"):
+                P.count("parse_structure=unavailable")
+            elif st_real != st_model:
                 P.disagree("real parser on model-printed text builds a different tree", {"text": text, **self.case_obj}, st_model, st_real)
         elif rp[0] == "raised" or any(w is not None for w in want):
             P.disagree("real parser rejects model-printed text", {"text": text, **self.case_obj}, "ok", rp)
@@ -1826,8 +1828,15 @@ class TreeCase:
             P.disagree("real parser accepts, Lean parser raises", case, lr, real_outcome)
             return
         st = model_structure(lean.get("tree"))
-        if st != real_struct:
+        if str(st).startswith("raised:") or str(real_struct).startswith("raised:"):
+            # the structural comparison is a device of the harness: without evaluation SymPy cannot sort the arguments of a Max / Min
+            # with three or more arguments when one is an infinity (TypeError "cannot determine truth value of Relational: oo < 2"),
+            # on either side, depending on how the call was nested.  Values are still compared below.
+            P.count("parse_structure=unavailable")
+        elif st != real_struct:
             P.disagree("parse trees differ (SymPy objects built without evaluation)", case, st, real_struct)
+        else:
+            P.count("parse_structure=compared")
         for w, g, env in zip(lean.get("vals", []), real_vals or [], envs):
             if w is not None and g != w:
                 # SymPy's own arithmetic may be wrong (known finding D162, raised by the oracle)
@@ -2770,6 +2779,7 @@ def _coverage_floors(ctx: Ctx, ntrees: int, nstrings: int) -> None:
         ("serialize/deserialize clauses checked", d.get("serde=done", 0), base(450, 2500)),
         ("integer-fragment comparisons", d.get("int_fragment=checked", 0), base(800, 20000)),
         ("standard-meaning oracle applied", d.get("meaning=checked", 0), base(600, 10000)),
+        ("parse trees compared structurally", d.get("parse_structure=compared", 0), base(4000, 200000)),
         ("model overloads vs Lean parse of the real text", d.get("overload_tie=compared", 0), int(0.8 * ntrees)),
         ("model of SymPy's printer token-exact", d.get("sympy_pp=token-exact", 0), int(0.7 * ntrees)),
         ("Shape model compared", d.get("shape_model=compared", 0), base(400, 2300)),
